@@ -293,3 +293,74 @@ impl Repo {
         let _ = std::fs::remove_dir_all(&self.dir);
     }
 }
+
+// ---------------------------------------------------------------- cross-check of the shape explorer with stateright
+
+/// The same abstract operation system as `explore_shapes`, expressed as a stateright model; used only to
+/// cross-check the purpose-built BFS (same bounds => same number of unique states).
+pub mod sr {
+    use std::collections::BTreeMap;
+
+    use stateright::{Checker, Model, Property};
+
+    #[derive(Clone, Debug, PartialEq, Eq, Hash)]
+    pub struct S { pub parents: Vec<Vec<usize>>, pub branches: BTreeMap<String, usize>, pub cur: String }
+
+    #[derive(Clone, Debug, PartialEq, Eq, Hash)]
+    pub enum A { Commit, Branch(String), Checkout(String), Merge(String) }
+
+    pub struct GitOps { pub max_commits: usize, pub max_extra_branches: usize }
+
+    fn anc(s: &S, c: usize) -> std::collections::BTreeSet<usize> {
+        let mut seen = std::collections::BTreeSet::new();
+        let mut st = vec![c];
+        while let Some(x) = st.pop() { if seen.insert(x) { st.extend(s.parents[x].iter().copied()); } }
+        seen
+    }
+
+    impl Model for GitOps {
+        type State = S;
+        type Action = A;
+        fn init_states(&self) -> Vec<S> {
+            vec![S { parents: vec![vec![]], branches: BTreeMap::from([("main".to_string(), 0)]), cur: "main".into() }]
+        }
+        fn actions(&self, s: &S, out: &mut Vec<A>) {
+            let names = ["main", "b1", "b2", "b3"];
+            let tip = s.branches[&s.cur];
+            if s.parents.len() < self.max_commits { out.push(A::Commit); }
+            if s.branches.len() < 1 + self.max_extra_branches { out.push(A::Branch(names[s.branches.len()].to_string())); }
+            for (b, &bt) in &s.branches {
+                if *b == s.cur { continue; }
+                out.push(A::Checkout(b.clone()));
+                let ac = anc(s, tip);
+                if ac.contains(&bt) { continue; }
+                let ab = anc(s, bt);
+                if ab.contains(&tip) || s.parents.len() < self.max_commits { out.push(A::Merge(b.clone())); }
+            }
+        }
+        fn next_state(&self, s: &S, a: A) -> Option<S> {
+            let mut n = s.clone();
+            let tip = s.branches[&s.cur];
+            match a {
+                A::Commit => { n.parents.push(vec![tip]); let id = n.parents.len() - 1; n.branches.insert(n.cur.clone(), id); }
+                A::Branch(name) => { n.branches.insert(name.clone(), tip); n.cur = name; }
+                A::Checkout(b) => { n.cur = b; }
+                A::Merge(b) => {
+                    let bt = s.branches[&b];
+                    if anc(s, bt).contains(&tip) { n.branches.insert(n.cur.clone(), bt); }
+                    else { n.parents.push(vec![tip, bt]); let id = n.parents.len() - 1; n.branches.insert(n.cur.clone(), id); }
+                }
+            }
+            Some(n)
+        }
+        fn properties(&self) -> Vec<Property<Self>> {
+            vec![Property::always("branch tips exist", |_, s: &S| s.branches.values().all(|t| *t < s.parents.len()))]
+        }
+    }
+
+    /// unique states reachable within the bounds, by stateright's BFS
+    pub fn unique_states(max_commits: usize, max_extra_branches: usize) -> usize {
+        let checker = GitOps { max_commits, max_extra_branches }.checker().spawn_bfs().join();
+        checker.unique_state_count()
+    }
+}
